@@ -20,7 +20,7 @@ EXPLANATION = (
     "R07e no set-typed value is iterated, joined, listed or popped unsorted (commutative min/max/or accumulation "
     "excepted), directory listings reach output only through sorted(), and no clock/random/id()/hash() call is "
     "reachable from a per-file scan; R07g the name of a temporary file never flows into a presentation sink, an "
-    "error message or the scan context (the display name travels separately). "
+    "error message or the scan context (the display name travels separately); R07h (=R13b) every rule's per-file state is reset on every path of starting_new_file, so a scan prints the same thing whatever was scanned before it in the process. "
     "Not decided: that reported columns are in range, that reports are unique per (line, column, rule), and that a "
     "rule's own code raises no exception — those depend on run-time values."
 )
@@ -451,3 +451,10 @@ def run(ctx: Context) -> None:
     r07d(ctx)
     r07e(ctx)
     r07g(ctx)
+    from sa.rules import c13
+
+    # "two scans of the same input print the same thing", also inside one process: rule state is reset per file
+    c13.r13b(ctx)
+    ctx.rules[-1].rule_id = "R07h"
+    for finding in ctx.rules[-1].findings:
+        finding.rule = "R07h"
